@@ -82,7 +82,12 @@ impl ArrivalCurvePrefix {
                 .map(|(i, _)| i)
                 .next();
             let i = step.unwrap_or(self.steps.len());
-            self.steps[i - 1].1
+            if i > 0 {
+                self.steps[i - 1].1
+            } else {
+                // no step at or below delta (e.g., no steps at all)
+                0
+            }
         }
     }
 }
@@ -99,6 +104,11 @@ impl ArrivalBound for ArrivalCurvePrefix {
     }
 
     fn steps_iter<'a>(&'a self) -> Box<dyn Iterator<Item = Duration> + 'a> {
+        if self.steps.is_empty() {
+            // nothing ever arrives, so there are no steps (and cycling
+            // through an empty list of steps would never terminate)
+            return Box::new(iter::empty());
+        }
         let horizon = self.horizon;
         Box::new(
             iter::once(Duration::zero()).chain((0..).flat_map(move |cycle: u64| {
